@@ -17,7 +17,7 @@ func compileFunction(vm *r.VM, node *syntax.FunctionDeclareStmt) *value.Function
 		return evalExecBlock(vm, node.ExecBlock, params)
 	}
 
-	return value.NewFunction(mainLogicHandler)
+	return value.NewFunction(mainLogicHandler).SetModule(vm.GetCurrentModule())
 }
 
 // （显示：A、B、C），得到D
@@ -106,6 +106,11 @@ func execDirectFunction(vm *r.VM, funcName *r.IDName, params []r.Element) (r.Ele
 	// all, e.g. by 得到 in an input-variable text, so that there is nothing to make a frame of)
 	if _, isFn := elem.(*value.Function); !isFn || module == nil {
 		return nil, zerr.InvalidFuncVariable(funcName.GetLiteral())
+	}
+	// a method runs in the module that defines it - not in the module where the NAME it is
+	// called by was found (a variable or an input of another module may hold it)
+	if defModule := elem.(*value.Function).GetModule(); defModule != nil {
+		module = defModule
 	}
 	// pushCallFrame
 	fnCallFrame := r.NewFunctionCallFrame(module, nil)
